@@ -1189,6 +1189,8 @@ def _persist(run, P):
                     tgt = P.resolve_name(f, dotted(t.operand.func) or "")
                     ok = isinstance(tgt, Func) and tgt.fq == "dagrt.utils.is_state_variable"
     if not ok and dels:
+        # (a cleanup over a tracked set that still tests is_state_variable in the loop is the
+        # first form above)
         from .c11 import tracked_set_of_cleanup, tracked_entries
         tr = tracked_set_of_cleanup(P)
         if tr:
